@@ -75,7 +75,47 @@ PROPS = {
 }
 
 
+def replay(path):
+    """Replay a recorded violation: run the native script stored next to the
+    record on the current /repo (exit 1 = the failing input still fails),
+    or, for a record without failing input, show the failed obligation and
+    the verifier's output."""
+    import json
+    import subprocess
+    rec = json.load(open(path))
+    print('property  :', rec.get('property'))
+    print('obligation:', rec.get('obligation'))
+    print('signature :', rec.get('signature'))
+    script = path[:-5] + '.py' if path.endswith('.json') else None
+    verif = os.path.dirname(os.path.dirname(os.path.abspath(__file__)))
+    repo = os.environ.get('PYVC_REPO', '/repo')
+    if script and os.path.exists(script):
+        env = dict(os.environ, PYTHONPATH=repo + os.pathsep + verif)
+        r = subprocess.run(['/venv/bin/python', script], env=env,
+                           capture_output=True, text=True, timeout=600)
+        print(r.stdout[-3000:])
+        if r.returncode not in (0, 1):
+            print(r.stderr[-2000:])
+        print('replay exit', r.returncode,
+              '(1 = the input still fails on the current tree)')
+        return 1 if r.returncode == 1 else 0
+    rp = rec.get('replay') or {}
+    if rp.get('native_check'):
+        print('found by the native check', rp['native_check'], 'on input:')
+        print(json.dumps(rp.get('failing_input'), indent=1)[:2000])
+        print('what:', rp.get('what'))
+        return 1
+    print('no failing input was found for this obligation; counterexample of '
+          'the verifier:')
+    print(json.dumps(rec.get('counterexample'), indent=1)[:3000])
+    if rec.get('verifier_output'):
+        print(str(rec['verifier_output'])[:3000])
+    return 1
+
+
 def main():
+    if len(sys.argv) == 3 and sys.argv[1] == '--replay':
+        return replay(sys.argv[2])
     ap = argparse.ArgumentParser()
     ap.add_argument('prop')
     ap.add_argument('--tier', default=os.environ.get('VERIF_TIER', 'quick'))
